@@ -26,7 +26,7 @@ def oracle(case, rec, group):
                         observed=dict(guard_is_None=none, ignore_errors=ign, ONE_is_constant=one), pc=rec.get("exn_pc")))
     # the guard WIRES (not only their values) are a function of the program: two completing runs of one program on
     # different guard values record the same constraint system (a conjunction computed through a value-dependent shortcut is not one)
-    if group and case is group[0][0]:
+    if group and case is group[0][0] and not case.get("nomodel"):      # (a refused / aborted entry legitimately depends on the guard value)
         done = [(c, r) for c, r in group if r["exn"] is None]
         for c, r in done[1:]:
             if r["shape"] != done[0][1]["shape"]:
@@ -66,6 +66,20 @@ def aborted_enter_cases():
         out.append(dict(cfg=dict(p=progs.BN, n=8, res=2, ign=0), prog=[["input", 0, "priv", 0]] + core, ins=[c, 1, 1, 1], nomodel=1))
         out.append(dict(cfg=dict(p=progs.BN, n=8, res=2, ign=0), prog=[["input", 0, "priv", 0], ["input", 3, "priv", 1], ["guarded", 3, core + [["probe"]]], ["probe"]],
                         ins=[c, 1, 1, 1], nomodel=1))
+    # a region whose entry is refused (guard value neither 0 nor 1) with the refusal caught by the caller, at top level and
+    # inside an active region; and a region left by an exception the caller catches
+    for gv in (2, -1):
+        inner = [["try", [["guarded", 1, [["probe"]]]]], ["probe"]]
+        out.append(dict(cfg=dict(p=progs.BN, n=8, res=2, ign=0), prog=[["input", 0, "priv", 0], ["input", 1, "priv", 1]] + inner, ins=[1, gv, 1, 1], nomodel=1))
+        out.append(dict(cfg=dict(p=progs.BN, n=8, res=2, ign=0), prog=[["input", 0, "priv", 0], ["input", 1, "priv", 1], ["guarded", 0, inner + [["probe"]]], ["probe"]],
+                        ins=[1, gv, 1, 1], nomodel=1))
+    for c in (0, 1):
+        for exn in ("ValueError", "KeyboardInterrupt"):
+            if exn == "KeyboardInterrupt": continue          # the runner's `try` swallows ordinary exceptions only
+            inner = [["try", [["guarded", 1, [["raise", exn]]]]], ["probe"]]
+            out.append(dict(cfg=dict(p=progs.BN, n=8, res=2, ign=0), prog=[["input", 0, "priv", 0], ["input", 1, "priv", 1]] + inner, ins=[1, c, 1, 1], nomodel=1))
+            out.append(dict(cfg=dict(p=progs.BN, n=8, res=2, ign=0), prog=[["input", 0, "priv", 0], ["input", 1, "priv", 1], ["guarded", 0, inner + [["probe"]]], ["probe"]],
+                            ins=[1, c, 1, 1], nomodel=1))
     return out
 
 
